@@ -399,6 +399,8 @@ class FileDownloader(Resource, object):
 
                 if first == '':
                     # suffix-byte-range-spec
+                    if int(last) < 0:
+                        raise ValueError
                     first = filesize - int(last)
                     last = filesize - 1
                 else:
@@ -412,9 +414,8 @@ class FileDownloader(Resource, object):
                         last = filesize - 1
                     else:
                         last = int(last)
-
-                if last < first:
-                    raise ValueError
+                        if last < first:
+                            raise ValueError
 
                 return (first, last)
 
